@@ -100,6 +100,21 @@ pub fn judge(before: &[Kid], before_ptr: usize, after: &[Kid], after_ptr: usize,
 
 /// one execution on real threads
 pub fn execute(parallel: bool, n: usize, fail_calls: &[usize], pool: Option<&rayon::ThreadPool>) -> (Option<(&'static str, String)>, usize) {
+    {
+        let (p, f, t) = (parallel, fail_calls.to_vec(), pool.map(|p| p.current_num_threads()).unwrap_or(0));
+        mcx::watch::enter(Box::new(move |_| {
+            (
+                format!("{}/hang", if p { "par_next" } else { "serial_next" }),
+                format!("{} on a population of {n}, failing calls {f:?}, {t} threads", if p { "par_next" } else { "serial_next" }),
+                json!({"check":"C09","variant": if p { "par" } else { "serial" },"n":n,"fail":f,"threads":t}),
+            )
+        }));
+    }
+    let r = execute_inner(parallel, n, fail_calls, pool);
+    mcx::watch::leave();
+    r
+}
+fn execute_inner(parallel: bool, n: usize, fail_calls: &[usize], pool: Option<&rayon::ThreadPool>) -> (Option<(&'static str, String)>, usize) {
     let counter = std::sync::Arc::new(AtomicUsize::new(0));
     let words = std::sync::Arc::new(Mutex::new(vec![]));
     let maker = Maker { fail_calls: fail_calls.to_vec(), calls: counter.clone(), log: Mutex::new(vec![]), words: words.clone() };
